@@ -380,7 +380,7 @@ def main():
             if r["drc"] != 0 or missing:
                 broken.append(("driver", "driver run", "rc=%s missing=%s\n%s" % (r["drc"], missing[:5], r["derr"][-1500:])))
             if r["hrc"] != 0:
-                k, txt = open_case if open_case else (-1, "")
+                k, txt = open_case if open_case else (-1, "CASE -1 %s (no case open; harness step '%s')" % (step.get("label", ""), step.get("label", "")))
                 msg = "harness exit %s: %s" % (r["hrc"], sanitizer_summary(r["herr"]))
                 violations.append(("CRASH", k, msg, txt + "\n--- stderr ---\n" + r["herr"][-6000:], step["hargs"], step.get("dargs", [])))
             runs.append(dict(label=step.get("label", str(i)), cases=len(cases), t_harness=round(r["t_harness"], 2),
@@ -394,7 +394,7 @@ def main():
     real = []
     for verd, k, msg, ctext, hargs, dargs in violations:
         tag = ""
-        m = re.match(r"CASE \d+ (\S+)", ctext or "")
+        m = re.match(r"CASE -?\d+ (\S+)", ctext or "")
         if m: tag = m.group(1)
         e = match_known(kfs, tag, msg, ctext)
         if e is not None:
